@@ -474,9 +474,27 @@ def lookup(view: Dict[Key, str], param: str, proto: Optional[str], parents: Sequ
 # ---------------------------------------------------------------------------------------------
 # values and typed accessors
 # ---------------------------------------------------------------------------------------------
+# Revision of the first COMPARAM-SUBSET document: revision r > 0 has the same specifications with OTHER defaults (the
+# re-resolution phase exchanges the document).  The check sets REVISION to the revision the judged database must show.
+REVISION = 0
+
+
+def rev_text(default: str, rev: int) -> str:
+    """The PHYSICAL-DEFAULT-VALUE of revision `rev` of a specification whose revision-0 default is `default`."""
+    if rev == 0:
+        return default
+    m = re.fullmatch(r"(.*?)([0-9]+)", default)
+    assert m is not None, default
+    return m.group(1) + str(int(m.group(2)) + 7 * rev)
+
+
+def default_of(param: str, default: str) -> str:
+    return rev_text(default, REVISION) if subset_of(param) == "CS15" else default
+
+
 def effective_value(inst: Dict[str, Any]) -> str:
     v = inst.get("value")
-    return SIMPLE[inst["param"]]["default"] if v is None else v
+    return default_of(inst["param"], SIMPLE[inst["param"]]["default"]) if v is None else v
 
 
 def effective_subvalue(inst: Dict[str, Any], sub: str, variant: str = "flat") -> Optional[str]:
@@ -488,7 +506,7 @@ def effective_subvalue(inst: Dict[str, Any], sub: str, variant: str = "flat") ->
     v = inst["subs"][k]
     d = complex_subs(inst["param"], variant)[k][1]
     assert isinstance(d, str), "nested sub-parameters are not read as strings"
-    return d if v is None else v
+    return default_of(inst["param"], d) if v is None else v
 
 
 def says_canfd(inst: Dict[str, Any]) -> bool:
